@@ -150,7 +150,9 @@ func c35sSend(c *c35sConn, entry, q string) (string, any, error) {
 		if r != nil {
 			return "handler-panic", r, nil
 		}
-		return "", nil, fmt.Errorf("handler returned without panic after %q: %v", q, err)
+		// the handler ended the connection on its own (e.g. it recovered from a panic): the client
+		// lost its connection but the server goes on
+		return "connection-closed-by-server", nil, nil
 	case <-time.After(20 * time.Second):
 		return "", nil, fmt.Errorf("handler neither answered nor ended after %q: %v", q, err)
 	}
@@ -249,6 +251,10 @@ func TestVerifC35Server(t *testing.T) {
 			rep.Eval(1)
 			nontrivial := r != nil || !strings.Contains(sig, "error:")
 			rep.Outcome(entry+"/"+sig, nontrivial)
+			if r == nil && sig == "connection-closed-by-server" {
+				c.client.Close()
+				c = nil
+			}
 			if r != nil {
 				c.client.Close()
 				c = nil
